@@ -45,7 +45,7 @@ All twenty properties are claimed in `MANIFEST.json`; `not_applicable` is empty.
 | C12 | PoseSeq (+ all body models) | `step_inv`, `run_inv`, `wf_pointwise`, `fits_of_inv`, `serialisable`, `normalize_is_transform`, `normalizeDistribution_is_transform`, `unnormalizeDistribution_is_transform`, `normalize_wf` …, `interpolate_any_kind_wf` | dropouts' draws, torch / tf bodies |
 | C13 | Normalize, Normalize3D | `normalize_post`, `normalize_similarity_invariant`, `normalize_twice` (normalising a pose normalised before = normalising the original), `distribution_mean_zero`, `distribution_std_one`, `unnormalize_inverse`, `normalizeDistribution_post`, `normalizeDistribution_post_all`, `line_p1_at_origin`, `plane_at_z0_partial`, `line_on_negative_y`, `normalize3D_translation_invariant`, `normalize3D_scale_invariant`, `normalize3DBody_independent`, `not_rotation_invariant` | float rounding; `arctan2` / `from_euler` by algebraic meaning; body-level distribution theorem for axes (0,1,2) |
 | C14 | Interp | `linear_affine_exact`, `linear_identity_at_observations`, `linear_within_neighbours`, `interp_frames_fps`, `linspace_ends`, `track_zero_outside_window`, `before_window`; every kind (interpolant = parameter): `interp_frames_fps_any_kind`, `track_zero_outside_window_any_kind`, `track_identity_at_observations` | that scipy's quadratic / cubic interpolants reproduce samples and affine data |
-| C15 | Spatial, PoseOps | `bbox_tight`, `focus_min_zero`, `flip_neg_only`, `flip_involutive`, `matmul_id_2/3`, `matmul_linear_2/3`, `augment_id_when_std_zero`, `focusBody_spec`, `ceil_extent_spec` | cos / sin of the drawn angle |
+| C15 | Spatial, PoseOps | `bbox_tight`, `focus_min_zero`, `flip_neg_only`, `flip_involutive`, `flip_comm` (flips of two axes commute; also run on the implementation), `flip_length` — all for axes the pose has: beyond `dims` the code raises and the total model is not tied to it, so nothing is claimed there, `matmul_id_2/3`, `matmul_linear_2/3`, `augment_id_when_std_zero`, `focusBody_spec`, `ceil_extent_spec` | cos / sin of the drawn angle |
 | C16 | Frames, PoseOps | `select_exact`, `select_empty`, `step_exact`, frame slices `body[a:b:step]` (`Model/PoseOps.pySliceIndexes` = Python's `slice.indices`): `mem_pySliceIndexes`, `pySliceIndexes_lt`, `pySliceIndexes_sorted`, `slice_exact`, `slice_unbounded_is_step`, `slice_all_is_identity` (`body[:]` names every frame in order), `slice_step_count` (a step keeps ⌈n/k⌉ frames), `slice_empty`, `dropout_kept`, `dropout_length`, `dropout_count`, `dropout_keeps_one`, `tf_dropout_kept`, `tf_dropout_keeps_one` | the random draws themselves |
 | C17 | Represent | `…_missing_zero` (4), `…_not_nan` (3), `distance_formula`, `angle_formula`, `innerAngle_formula`, `pointLine_formula` (Heron), `limbPoints_spec`, `limbPoints_in_range`, `mem_trianglePoints`, `output_size_is_row_count`, `pointsRep_row`, `groupEmbeds_entry`; end to end (`poseRepresentation`): `forward_shape`, `forward_point_entry`, `forward_limb_entry`, `forward_triple_entry` | IEEE overflow / `acos(1+ε)`; `atan`, `acos` |
 | C18 | Concurrent | `step_inv`, `reads_isolated(_gen)`, `finishes_after_two_steps` | preemption inside a source line |
